@@ -81,6 +81,11 @@ type world struct {
 	trace   []string
 	dead    bool
 	last    string // last model response
+	recurred bool  // a primary root has recurred in this case (numbers are no longer ordered)
+	hooked   bool  // Execute has run since the last write
+	tmp      bool  // branch tmp exists
+	lostAck  bool  // a lost acknowledgement happened in this case
+	shown    hash.Hash
 }
 
 func (w *world) logf(f string, a ...any) { w.trace = append(w.trace, fmt.Sprintf(f, a...)) }
@@ -181,7 +186,7 @@ func (w *world) pollAcks() {
 			wt.done = true
 			w.acked[wt.root] = true
 			// ack_implies_replicated on the implementation
-			if w.maxS < wt.root {
+			if w.maxS < wt.root && !w.recurred {
 				w.violate("ack-before-replicated", fmt.Sprintf("the replication wait of the commit with root #%d returned nil but the standby has only ever shown roots up to #%d", wt.root, w.maxS))
 			}
 		}
@@ -245,11 +250,14 @@ func (w *world) checkStandby(after string) {
 		w.violate("standby-invented-root", fmt.Sprintf("after %s the standby's root %s was never a root of the primary", after, sr))
 		return
 	}
-	if k < w.maxS {
+	if k < w.maxS && !w.recurred {
 		w.violate("standby-went-back", fmt.Sprintf("after %s the standby's root went from #%d back to #%d", after, w.maxS, k))
 	}
 	if k > w.maxS {
 		w.maxS = k
+	}
+	if sr != w.shown {
+		w.shown = sr
 		// closure readable at the standby (first time this root is shown)
 		cs := w.gate.Underlying()
 		seen := map[hash.Hash]bool{}
@@ -274,6 +282,37 @@ func (w *world) checkStandby(after string) {
 	}
 }
 
+// checkCaughtUp — the lemma behind graceful_no_ack_loss, on the implementation: a primary hook that
+// reports isCaughtUp (the condition a graceful transition waits for) and is not running an attempt
+// has a standby at the root the last Execute recorded, and — when Execute has run since the last
+// write — at the primary's root.  The one exception is the known finding: the MODEL OF THE UNCHANGED
+// CODE predicts the same stale standby for this exact step sequence and the sequence contains a
+// lost acknowledgement; then the witness is reported as Known.  Everything else is a violation.
+func (w *world) checkCaughtUp(after, resp string) {
+	st := w.hook.State()
+	if st.Role != cluster.RolePrimary || !st.CaughtUp || w.gate.Waiting() {
+		return
+	}
+	sr, pr := w.standbyRoot(), w.primaryRoot()
+	if sr == st.NextHead && (!w.hooked || sr == pr) {
+		return
+	}
+	mNext, mLast, mS, mP := field(resp, "next"), field(resp, "last"), field(resp, "sroot"), field(resp, "proot")
+	modelStale := field(resp, "role") == "primary" && field(resp, "inflight") == "-" && mNext != "0" && mNext == mLast &&
+		(mS != mNext || (w.hooked && mS != mP))
+	what := fmt.Sprintf("after %s the hook reports isCaughtUp (nextHead = lastPushedHead = #%d, Execute ran since the last write: %v) but the standby's root is #%d and the primary's is #%d",
+		after, w.n(st.NextHead), w.hooked, w.n(sr), w.n(pr))
+	if modelStale && w.lostAck && w.recurred {
+		if w.k.Kind == "recur" {
+			return // runRecur reports the witness with its full description
+		}
+		w.e.Rep.Known("cluster-root-recurrence-lost-ack-standby-stale", what+" — root recurrence after a lost acknowledgement (see design/C45.md) | steps: "+w.tr(), w.k)
+		w.e.Rep.Hit("known:root-recurrence-lost-ack")
+		return
+	}
+	w.violate("caught-up-but-standby-differs", what)
+}
+
 // step performs one model step on both sides and compares.
 func (w *world) step(name string) {
 	if w.dead {
@@ -281,6 +320,7 @@ func (w *world) step(name string) {
 	}
 	before := w.parked.Load()
 	implRes := "ok"
+	mcmd := name
 	switch name {
 	case "init":
 		// the replicate thread does this by itself when it comes up
@@ -303,22 +343,27 @@ func (w *world) step(name string) {
 			panic(fmt.Sprintf("write failed: %v", r.Err))
 		}
 		h := w.primaryRoot()
-		if name == "revert" {
-			if _, ok := w.num[h]; !ok {
-				w.e.Rep.Hit("recur:root-did-not-recur")
-				w.logf("revert -> root did NOT recur")
-				w.dead = true
-				return
-			}
+		w.hooked = false
+		switch name {
+		case "writeBranch":
+			w.tmp = true
+		case "revert":
+			w.tmp = false
+		}
+		if k, ok := w.num[h]; ok {
+			// the primary's root hash has returned to an earlier value (content addressing)
+			w.recurred = true
+			mcmd = fmt.Sprintf("revert %d", k)
+			w.e.Rep.Hit("write:root-recurred")
 		} else {
-			if _, ok := w.num[h]; ok {
-				// a write that reproduced an earlier root: outside the model's fresh-root assumption
-				w.e.Rep.Hit("write:root-recurred")
+			if name == "revert" && w.k.Kind == "recur" {
+				w.e.Rep.Hit("recur:root-did-not-recur")
 				w.dead = true
 				return
 			}
 			w.fresh++
 			w.num[h] = w.fresh
+			mcmd = "write"
 		}
 	case "exec":
 		ds, err := doltdb.ExposeDatabaseFromDoltDB(w.src).GetDataset(ctx, "refs/heads/main")
@@ -326,6 +371,7 @@ func (w *world) step(name string) {
 			panic(err)
 		}
 		root := w.n(w.primaryRoot())
+		w.hooked = true
 		f, err := w.hook.Execute(ctx, ds, w.src)
 		if err != nil {
 			panic(err)
@@ -345,6 +391,7 @@ func (w *world) step(name string) {
 			w.gate.Release(replfault.OutFail)
 		}
 	case "finishLostAck":
+		w.lostAck = true
 		w.gate.Release(replfault.OutLost)
 	case "beginGraceful":
 		w.ro = true
@@ -368,13 +415,7 @@ func (w *world) step(name string) {
 		}
 	}
 
-	mname := name
-	switch name {
-	case "writeBranch":
-		mname = "write"
-	case "revert":
-		mname = "revert 1"
-	}
+	mname := mcmd
 	prev := w.last
 	resp := w.ask("c " + mname)
 	modelRes := strings.Fields(resp)[0]
@@ -413,11 +454,7 @@ func (w *world) step(name string) {
 			w.logf("%s", logName)
 			w.checkStandby(name)
 			w.pollAcks()
-			if st := w.hook.State(); w.k.Kind != "recur" && st.Role == cluster.RolePrimary && st.CaughtUp {
-				if sr := w.standbyRoot(); sr != st.NextHead {
-					w.violate("caught-up-but-standby-differs", fmt.Sprintf("after %s the hook reports isCaughtUp (nextHead = lastPushedHead = #%d) but the standby's root is #%d", logName, w.n(st.NextHead), w.n(sr)))
-				}
-			}
+			w.checkCaughtUp(logName, resp)
 			w.disagree("no attempt parked at the gate within 60 s: "+w.implLine(), modelRes+" "+modelLine(resp), "after step "+logName)
 			return
 		}
@@ -436,14 +473,7 @@ func (w *world) step(name string) {
 	w.logf("%s", logName)
 	w.checkStandby(name)
 	w.pollAcks()
-	// the lemma behind graceful_no_ack_loss, on the implementation: a primary hook that reports
-	// isCaughtUp (the condition a graceful transition waits for) has a standby at exactly the root
-	// the last Execute recorded.  (The root-recurrence case reports its failure as a Known witness.)
-	if st := w.hook.State(); w.k.Kind != "recur" && st.Role == cluster.RolePrimary && st.CaughtUp && !w.gate.Waiting() {
-		if sr := w.standbyRoot(); sr != st.NextHead {
-			w.violate("caught-up-but-standby-differs", fmt.Sprintf("after %s the hook reports isCaughtUp (nextHead = lastPushedHead = #%d) but the standby's root is #%d", logName, w.n(st.NextHead), w.n(sr)))
-		}
-	}
+	w.checkCaughtUp(logName, resp)
 	impl := implRes + " " + w.implLine()
 	model := modelRes + " " + modelLine(resp)
 	if impl != model {
@@ -542,6 +572,13 @@ func runRandom(e *hx.Env, m *hx.Model, k kase) {
 		}
 		if primary && !w.ro {
 			opts = append(opts, "write", "write")
+			// create / delete a branch: deleting it brings an earlier root hash back
+			if !w.tmp && w.r.Chance(1, 2) {
+				opts = append(opts, "writeBranch")
+			}
+			if w.tmp {
+				opts = append(opts, "revert", "revert")
+			}
 		}
 		if pendingExec > 0 || w.r.Chance(1, 6) {
 			opts = append(opts, "exec", "exec")
@@ -560,7 +597,7 @@ func runRandom(e *hx.Env, m *hx.Model, k kase) {
 		}
 		op := hx.Pick(w.r, opts)
 		switch op {
-		case "write":
+		case "write", "writeBranch", "revert":
 			pendingExec++
 		case "exec":
 			if pendingExec > 0 {
@@ -592,7 +629,8 @@ func runRecur(e *hx.Env, m *hx.Model, k kase) {
 	st := w.hook.State()
 	sr, pr := w.standbyRoot(), w.primaryRoot()
 	w.logf("state: caughtUp=%v next=#%d last=#%d standby=#%d primary=#%d", st.CaughtUp, w.n(st.NextHead), w.n(st.LastPushedHead), w.n(sr), w.n(pr))
-	if st.CaughtUp && sr != pr && st.NextHead == pr {
+	modelAgrees := field(w.last, "next") == field(w.last, "last") && field(w.last, "sroot") != field(w.last, "proot")
+	if st.CaughtUp && sr != pr && st.NextHead == pr && modelAgrees && w.lostAck {
 		branches := "?"
 		if ddb, err := doltdb.DoltDBFromCS(w.gate.Underlying(), "p"); err == nil {
 			if bs, err := ddb.GetBranches(ctx); err == nil {
@@ -619,6 +657,53 @@ func runRecur(e *hx.Env, m *hx.Model, k kase) {
 	e.Rep.Count("recur", true)
 }
 
+// runRecurDelayed: the root recurs while the attempt for the intermediate root is still parked (no
+// lost acknowledgement): A replicated; branch created (root B), Execute, attempt for B parked; branch
+// deleted (root A again), Execute; the attempt for B completes; the hook must then notice that the
+// primary is at A and push A again.  On the unchanged code the standby ends at A.
+func runRecurDelayed(e *hx.Env, m *hx.Model, k kase) {
+	w := setup(e, m, k)
+	defer w.stop()
+	w.start()
+	seq := []string{"finishOk", "writeBranch", "exec", "revert", "exec"}
+	if k.Seed%2 == 1 {
+		// variant: the first attempt for B fails, the recurrence happens during the back-off
+		seq = []string{"finishOk", "writeBranch", "exec", "finishFail", "revert", "exec"}
+	}
+	for i, st := range seq {
+		w.step(st)
+		if w.dead && i < len(seq)-1 {
+			return // diverged from the model before the script was complete
+		}
+	}
+	// (a divergence from the model at the LAST scripted step does not stop the case: the drain and
+	// the convergence predicate below are about the implementation alone)
+	// drain (implementation only): let every attempt the hook wants to make succeed, waking it the
+	// way the ticker would, until it stays parked
+	for i := 0; i < 6; i++ {
+		before := w.parked.Load()
+		if !w.gate.Waiting() {
+			w.hook.Kick()
+			if !waitFor(400*time.Millisecond, w.gate.Waiting) {
+				break
+			}
+		}
+		att := w.gate.AttemptCount()
+		w.gate.Release(replfault.OutOK)
+		waitFor(60*time.Second, func() bool { return w.parked.Load() > before || w.gate.AttemptCount() > att })
+		time.Sleep(5 * time.Millisecond)
+		w.logf("drain:attempt-ok")
+	}
+	w.hooked = true
+	w.checkStandby("drain")
+	if sr, pr := w.standbyRoot(), w.primaryRoot(); sr != pr {
+		w.violate("recurrence-not-converged", fmt.Sprintf("root recurred while the intermediate root was being replicated; every attempt succeeded, nothing is parked, yet the standby's root is #%d and the primary's #%d", w.n(sr), w.n(pr)))
+	}
+	e.Rep.Sample(fmt.Sprintf("recur-delayed %d: %s | final %s", k.Seed%2, w.tr(), w.implLine()))
+	e.Rep.Count(fmt.Sprintf("recur-delayed %d", k.Seed%2), true)
+	e.Rep.Hit("recur-delayed")
+}
+
 func main() {
 	e := hx.Init("clusterhook", "C45")
 	defer e.Finish()
@@ -629,6 +714,8 @@ func main() {
 		out := hx.Recover(func() string {
 			if k.Kind == "recur" {
 				runRecur(e, m, k)
+			} else if k.Kind == "recur-delayed" {
+				runRecurDelayed(e, m, k)
 			} else {
 				runRandom(e, m, k)
 			}
@@ -657,6 +744,8 @@ func main() {
 		}
 	}
 	run(kase{Kind: "recur", Seed: 1})
+	run(kase{Kind: "recur-delayed", Seed: 0})
+	run(kase{Kind: "recur-delayed", Seed: 1})
 	n := e.N(6, 20)
 	for i := 0; i < n; i++ {
 		run(kase{Kind: "random", Seed: e.Rng.U64() % 1000000, Steps: e.N(30, 60)})
